@@ -100,11 +100,7 @@ def reshape_failure_cases(
     elif is_table(failure_cases) and is_multiindex(failure_cases.index):
         reshaped_failure_cases = (
             failure_cases.rename_axis("column", axis=1)  # type: ignore[call-overload]
-            .assign(
-                index=lambda df: (
-                    df.index.to_frame().apply(tuple, axis=1).astype(str)
-                )
-            )
+            .assign(index=lambda df: multiindex_label_text(df.index))
             .set_index("index", drop=True)
             .unstack()
             .rename("failure_case")
@@ -114,11 +110,9 @@ def reshape_failure_cases(
         reshaped_failure_cases = (
             failure_cases.rename("failure_case")  # type: ignore[call-overload]
             .to_frame()
-            .assign(
-                index=lambda df: (
-                    _multiindex_to_frame(df).apply(tuple, axis=1).astype(str)
-                )
-            )[["failure_case", "index"]]
+            .assign(index=lambda df: multiindex_label_text(df.index))[
+                ["failure_case", "index"]
+            ]
             .reset_index(drop=True)
         )
     elif is_table(failure_cases):
@@ -142,13 +136,24 @@ def reshape_failure_cases(
     )
 
 
-def _multiindex_to_frame(df):
-    # pylint: disable=import-outside-toplevel,cyclic-import
-    from pandera.engines.utils import pandas_version
+def multiindex_label_text(index: pd.MultiIndex) -> List[str]:
+    """The text of each label of a MultiIndex, as failure cases report it.
 
-    if pandas_version().release >= (1, 5, 0):
-        return df.index.to_frame(allow_duplicates=True)
-    return df.index.to_frame().drop_duplicates()
+    A label reads the same whatever other labels the index holds: pandas hands
+    out an integer level as floats as soon as one label of that level is
+    missing (and row-wise conversion of mixed int / float levels does the
+    same), so whole numbers are written without a fractional part.
+    """
+
+    def _text(label) -> str:
+        return str(
+            tuple(
+                int(v) if isinstance(v, float) and v.is_integer() else v
+                for v in label
+            )
+        )
+
+    return [_text(label) for label in index]
 
 
 def consolidate_failure_cases(schema_errors: List[SchemaError]):
